@@ -2,7 +2,7 @@
 import vlib
 
 C01_CLASSES = {"wrong-count", "empty-cycle", "foreign-edge", "repeated-edge", "not-simple-cycle", "dependent"}
-C02_CLASSES = {"return-mismatch", "not-minimum", "weight-vector"}
+C02_CLASSES = {"return-mismatch", "not-minimum", "weight-vector", "unweighable-output"}
 
 RULE = ("every labelled simple graph on exactly n vertices (all 2^(n(n-1)/2) edge subsets, edges inserted in "
         "lexicographic order) x every function E->alphabet (U={1}, A2={1,2}, A3={1,2,3}, D={.25,.5,.75}) x each of "
